@@ -8,8 +8,8 @@ A template is a sequence of segments: `one ms` = exactly one code point whose AS
 The lists below are typed from the CSS 2.1 Recommendation — NOT derived from cssutils:
 
 * §4.3.1  `<integer>` = `[+-]?[0-9]+`, `<number>` = `[+-]?([0-9]+|[0-9]*\.[0-9]+)`
-* §4.3.2  `<length>`  = `<number>` immediately followed by `em ex px in cm mm pt pc`, or `0`
-          (“after a zero length, the unit identifier is optional” — the serializer writes every zero length as `0`)
+* §4.3.2  `<length>`  = `<number>` immediately followed by `em ex px in cm mm pt pc`, or a zero `<number>`
+          (“after a zero length, the unit identifier is optional”; the zero in any spelling: `0`, `00`, `0.0`, `.0`, `-0`)
 * §4.3.3  `<percentage>` = `<number>%`
 * Appendix F for the properties. `font-size` is left out: its grammar is `<length> | <percentage> | …` but the
   prose forbids negative values, and cssutils implements that for lengths only.
@@ -46,15 +46,19 @@ def digits1 : Template := [.one digits, .many digits]
 /-- `[0-9]+ | [0-9]*\.[0-9]+` (unsigned) -/
 def unum : List Template := [digits1, [.many digits, .one [46]] ++ digits1]
 
-/-- optional sign: none, `-`, `+` -/
+/-- optional sign `[-+]?`: none, or one of `-` `+` -/
 def signed (ts : List Template) : List Template :=
-  ts ++ ts.map (fun t => Seg.one [45] :: t) ++ ts.map (fun t => Seg.one [43] :: t)
+  ts ++ ts.map (fun t => Seg.one [45, 43] :: t)
 
 def integer : List Template := signed [digits1]
 def number : List Template := signed unum
 def units : List String := ["em", "ex", "px", "in", "cm", "mm", "pt", "pc"]
 def withUnits (ns : List Template) : List Template := ns.flatMap fun n => units.map fun u => n ++ kw u
-def length : List Template := kw "0" :: withUnits number
+/-- a zero number without sign: `0+ | 0*\.0+` -/
+def uzero : List Template := [[.one [48], .many [48]], [.many [48], .one [46], .one [48], .many [48]]]
+/-- "after a zero length, the unit identifier is optional": a zero `<number>` in any spelling (`0`, `00`, `0.0`, `.0`,
+`-0`, `+0`), or a `<number>` with a unit -/
+def length : List Template := signed uzero ++ withUnits number
 def percentage : List Template := number.map fun n => n ++ [Seg.one [37]]
 def kws (l : List String) : List Template := l.map kw
 
